@@ -661,6 +661,8 @@ func main() {
 		concurrent(r, srvT, rep)
 	}
 	phase("concurrent")
+	partialBatchStress(r, engT)
+	phase("partial-batch-stress")
 	pinnedWitnesses(r, engR, srvT, srvP)
 	phase("pinned")
 
@@ -852,6 +854,12 @@ func concurrent(r *core.Run, srv *core.Srv, rep int) {
 					lo := 1 + rnd.Intn(nBig-k)
 					hi := lo + k - 1
 					tag := fmt.Sprintf("r%d-t%d-c%d-s%d-%d", rep, ti, c, i, seq.Add(1))
+					if k <= 300 {
+						// a wide tag (~2.5 KB per row) on small results: the last, partial batch is then large
+						// enough for its socket write to be descheduled while other connections convert rows,
+						// which is when a result buffer handed back too early gets overwritten
+						tag += strings.Repeat("~"+tag, 90)
+					}
 					q := fmt.Sprintf("SELECT id, payload, '%s' AS tag, n FROM big WHERE id BETWEEN %d AND %d ORDER BY id", tag, lo, hi)
 					abandon := k >= 256 && rnd.Intn(9) == 0
 					if abandon {
